@@ -3,7 +3,6 @@
 From Coq Require Import DecimalN DecimalFacts.
 From V.model Require Import Base RelLex RelParse RelAcc RelGrammar.
 From V.proofs Require Import BaseP RelLexP RelParseP RelGrammarLexP RelGrammarParseP.
-Set Default Timeout 60.
 
 (* ---- searching among children ---- *)
 Lemma first_node_app k a b :
